@@ -1,5 +1,5 @@
 #!/bin/bash
-# preseed.sh [jobs] : like reseed.sh but on scratch copies of /repo HEAD, several seeds in parallel (does not touch /repo)
+# preseed.sh [jobs] [egrep pattern on seed names] : like reseed.sh but on scratch copies of /repo HEAD, several seeds in parallel (does not touch /repo)
 J=${1:-5}
 export VERIF_KEEP_FACTS=24
 export ADLT_VERIF_EVIDENCE_DIR=/tmp/adlt-verif-scratch-evidence
@@ -14,4 +14,5 @@ one() {
   rm -rf "$D"
 }
 export -f one
-ls -d /verif/seeded/*/ | xargs -P $J -I{} bash -c 'one {}'
+PAT=${2:-.}
+ls -d /verif/seeded/*/ | grep -E "$PAT" | xargs -P $J -I{} bash -c 'one {}'
